@@ -87,6 +87,51 @@ def expected_label_sets(model):
     return unknown, unused, dup
 
 
+def in_place_edits(model):
+    """Edits applied to the SAME model object that keep the number of statements: (description, do, undo)."""
+    out = []
+    for name, sts in scopes_of(model):
+        for st in sts:
+            if 'label' in st:
+                old = st['label']
+                out.append((f'rename label {old} in {name or "global"}', lambda st=st, old=old: st.__setitem__('label', old + '_x'),
+                            lambda st=st, old=old: st.__setitem__('label', old)))
+                break
+    for st in model['statements']:
+        if 'function' in st and st['function'].get('args'):
+            f = st['function']
+            out.append((f'duplicate an argument of {f["name"]}', lambda f=f: f['args'].append(f['args'][0]), lambda f=f: f['args'].pop()))
+            break
+    for name, sts in scopes_of(model):
+        for st in sts:
+            if 'expr' in st and 'name' not in st['expr'] and 'function' in st['expr']['expr']:
+                old = st['expr']['expr']
+                out.append((f'replace a call statement by a constant in {name or "global"}', lambda st=st: st['expr'].__setitem__('expr', {'number': 1}),
+                            lambda st=st, old=old: st['expr'].__setitem__('expr', old)))
+                break
+    return out
+
+
+def relint_in_place(model, pristine, case, acc):
+    """lint, edit the same model object in place, lint again: the second result must be that of a fresh copy."""
+    from bare_script.model import lint_script  # pylint: disable=import-outside-toplevel,import-error
+    for desc, do, undo in in_place_edits(model):
+        do()
+        try:
+            got = lint_script(model)
+            want = lint_script(copy.deepcopy(model))
+        except Exception as exc:  # pylint: disable=broad-exception-caught
+            undo()
+            acc.violation(dict(case, in_place_edit=desc), 'a list of warnings', ('raise', type(exc).__name__, str(exc)[:200]), 'lint_script raised after an in-place edit')
+            continue
+        undo()
+        acc.evals += 2
+        if got != want:
+            acc.violation(dict(case, in_place_edit=desc), want, got, 'lint of a model edited in place differs from lint of an equal fresh model (stale state between calls)')
+    if model != pristine:
+        raise RuntimeError('harness: in-place edit not undone')
+
+
 def purity_and_exactness(model, case, acc):
     """Returns the classified warnings (or None if lint failed)."""
     load_impl()
@@ -104,6 +149,7 @@ def purity_and_exactness(model, case, acc):
     if w1 != w2 or not isinstance(w1, list) or not all(isinstance(w, str) for w in w1):
         acc.violation(case, w1, w2, 'lint_script is not deterministic or does not return a list of strings')
         return None
+    relint_in_place(model, pristine, case, acc)
     cls = [classify(w) for w in w1]
     unknown, unused, dup = expected_label_sets(model)
     names_funcs = [st['function']['name'] for st in model['statements'] if 'function' in st]
@@ -459,6 +505,82 @@ def fam_exprstmt(arg):
     return acc.result()
 
 
+# ---------------------------------------------------------------- use sites of a local variable / an argument
+
+USE_KINDS = ('return', 'assign-then-return', 'jumpif', 'call-argument')
+
+
+def use_trees(maxn):
+    out = []
+    for t in all_expr_trees(maxn):
+        text = repr(t)
+        if text.count("'variable': 'x'") == 1:
+            out.append(t)
+    return out
+
+
+def _subst(e, name):
+    (k, v), = e.items()
+    if k == 'variable':
+        return {'variable': name if v == 'x' else v}
+    if k == 'binary':
+        return {'binary': {'op': v['op'], 'left': _subst(v['left'], name), 'right': _subst(v['right'], name)}}
+    if k == 'unary':
+        return {'unary': {'op': v['op'], 'expr': _subst(v['expr'], name)}}
+    if k == 'group':
+        return {'group': _subst(v, name)}
+    if k == 'function':
+        return {'function': {'name': v['name'], 'args': [_subst(a, name) for a in v.get('args', [])]}}
+    return copy.deepcopy(e)
+
+
+def check_usesite(case, acc):
+    tree = use_trees(case['maxn'])[case['i']]
+    as_arg = case['as'] == 'argument'
+    name = 'ua' if as_arg else 'uv'
+    e = _subst(tree, name)
+    kind = case['kind']
+    log = lambda x: {'expr': {'expr': {'function': {'name': 'systemLog', 'args': [x]}}}}  # noqa: E731
+    body = [] if as_arg else [{'expr': {'name': 'uv', 'expr': {'number': 5}}}]
+    if kind == 'return':
+        body += [{'return': {'expr': e}}]
+    elif kind == 'assign-then-return':
+        body += [{'expr': {'name': 'zz', 'expr': e}}, {'return': {'expr': {'variable': 'zz'}}}]
+    elif kind == 'jumpif':
+        body += [{'jump': {'label': 'L', 'expr': e}}, log({'string': 'not-taken'}), {'label': 'L'}, {'return': {'expr': {'string': 'r'}}}]
+    else:
+        body += [log({'binary': {'op': '+', 'left': {'string': 'v='}, 'right': e}}), {'return': {'expr': {'string': 'r'}}}]
+    f = {'name': 'hh', 'statements': body}
+    if as_arg:
+        f['args'] = ['ua']
+    model = {'statements': [{'function': f},
+                            {'expr': {'name': 'rr', 'expr': {'function': {'name': 'hh', 'args': [{'number': 5}] if as_arg else []}}}},
+                            log({'binary': {'op': '+', 'left': {'string': 'rr='}, 'right': {'variable': 'rr'}}}),
+                            {'return': {'expr': {'variable': 'rr'}}}]}
+    cls = purity_and_exactness(model, case, acc)
+    if cls is None:
+        return
+    justify(model, cls, case, acc, usesite_runner, 0)
+
+
+def usesite_runner(model, prefix):
+    o = jm.run_impl(model, prefix, 200)
+    return {'result': o['result'], 'logs': o['logs'], 'globals': {'x': o['x']}, 'points': o['points']}
+
+
+def fam_usesites(arg):
+    maxn, idxs = arg
+    acc = Acc('usesites')
+    for i in idxs:
+        for kind in USE_KINDS:
+            for how in ('variable', 'argument'):
+                acc.cases += 1
+                check_usesite({'maxn': maxn, 'i': i, 'kind': kind, 'as': how}, acc)
+    if idxs:
+        acc.sample({'expression': use_trees(maxn)[idxs[len(idxs) // 2]], 'kinds': list(USE_KINDS)})
+    return acc.result()
+
+
 # ---------------------------------------------------------------- shipped scripts
 
 def shipped_files():
@@ -498,7 +620,10 @@ def families(tier):
     files = shipped_files()
     maxn = 2 if tier == 'quick' else 3
     ntrees = len(all_expr_trees(maxn))
+    nuse = len(use_trees(maxn))
     return [
+        Family('usesites', fam_usesites, [(maxn, idxs) for idxs in split(list(range(nuse)), 32)],
+               f'a function-local variable / an argument read exactly once, inside every expression tree with <= {maxn} internal nodes, in a return, an assignment, a jump condition and a call argument: an "unused" verdict is refuted by renaming the definition', expected=nuse * len(USE_KINDS) * 2),
         Family('exprstmts', fam_exprstmt, [(maxn, idxs) for idxs in split(list(range(ntrees)), 32)],
                f'every expression tree with <= {maxn} internal nodes over {{+, &&, unary -, !, group}} and leaves {{logging call, 0, x}} as an expression statement, at global scope and inside a function: a "pointless" verdict is justified by deleting the statement', expected=2 * ntrees),
         Family('jumpmodels', fam_jump, shards, f'every list of length <= {maxlen} over the {nq}-statement alphabet (C08 alphabet + dangling jumps, third label, pointless statement, 7 function statements with duplicate names/arguments and label-bearing bodies)',
@@ -508,7 +633,7 @@ def families(tier):
     ]
 
 
-_CHECKS = {'jumpmodels': check_jump, 'structured': check_structured, 'shipped': check_shipped, 'exprstmts': check_exprstmt}
+_CHECKS = {'usesites': check_usesite, 'jumpmodels': check_jump, 'structured': check_structured, 'shipped': check_shipped, 'exprstmts': check_exprstmt}
 
 
 def replay(family, case):
